@@ -240,80 +240,92 @@ Section Verify.
   Definition combine_links (reduced ins : links) : links :=
     fold_left (fun acc kv => dict_set (fst kv) (snd kv) acc) ins reduced.
 
+  (** stages 1-6 of in_toto_verify: layout signatures, payload, expiry, substitution,
+      link loading, link signatures/thresholds *)
+  Definition stage_pre (files : list (str * file)) (a : args)
+    : res (layout * list (str * list (str * metadata))) :=
+    do _ <- verify_metadata_signatures (a_md a) (a_keys a);
+    do p <- get_payload (a_md a);
+    do l0 <- match p with PLayout l => Ok l | PLink _ => Err EAttribute end;
+    do _ <- check_expiry (ly_expires_us l0) now_us;
+    do l <- match a_params a with Some ps => substitute_parameters l0 ps | None => Ok l0 end;
+    do sm <- load_links_for_layout files l;
+    do vm <- verify_link_signature_thresholds l sm;
+    Ok (l, vm).
+
+  (** verify_sublayouts: the links of one step, in load order *)
+  Fixpoint subs_links (recs : list (str * (args -> result))) (missing : args -> result)
+           (l : layout) (sname : str) (kms : list (str * metadata)) (tr : list ev)
+    : res (list (str * link)) * list ev :=
+    match kms with
+    | [] => (Ok [], tr)
+    | (kid, md) :: kms' =>
+        match get_payload md with
+        | Err e => (Err e, tr)
+        | Ok (PLink lk) =>
+            let '(r, tr') := subs_links recs missing l sname kms' tr in
+            (do rest <- r; Ok ((kid, lk) :: rest), tr')
+        | Ok (PLayout _) =>
+            let dirname := sublayout_dirname sname kid in
+            let keyd := JDict [(kid, match lookup kid (ly_keys l) with Some k => k | None => JNull end)] in
+            let sub_args := mkArgs md keyd None (JStr sname) in
+            let '(sr, str) :=
+              match lookup dirname recs with
+              | Some f => f sub_args
+              | None => missing sub_args        (* no such directory: every load is an ignored IOError *)
+              end in
+            match sr with
+            | Err e => (Err e, tr ++ str)
+            | Ok summary =>
+                let '(r, tr') := subs_links recs missing l sname kms' (tr ++ str) in
+                (do rest <- r; Ok ((kid, summary) :: rest), tr')
+            end
+        end
+    end.
+
+  (** ... and all steps in layout order *)
+  Fixpoint subs_steps (recs : list (str * (args -> result))) (missing : args -> result)
+           (l : layout) (vm : list (str * list (str * metadata))) (tr : list ev)
+    : res (list (str * list (str * link))) * list ev :=
+    match vm with
+    | [] => (Ok [], tr)
+    | (sname, kms) :: vm' =>
+        match subs_links recs missing l sname kms tr with
+        | (Err e, tr1) => (Err e, tr1)
+        | (Ok kl, tr1) =>
+            let '(r2, tr2) := subs_steps recs missing l vm' tr1 in
+            (do rest <- r2; Ok ((sname, kl) :: rest), tr2)
+        end
+    end.
+
+  (** threshold agreement, reduction to one link per step, step rules *)
+  Definition stage_mid (l : layout) (chain : list (str * list (str * link))) : res links :=
+    do _ <- verify_threshold_constraints l chain;
+    do reduced <- reduce_chain_links chain;
+    do _ <- verify_all_item_rules glob_match (step_items l) reduced;
+    Ok reduced.
+
+  (** inspections, inspection rules, summary *)
+  Definition stage_final (l : layout) (reduced : links) (name : json) (tr : list ev) : result :=
+    match run_all_inspections (ly_inspect l) [] tr with
+    | (Err e, tr') => (Err e, tr')
+    | (Ok ilinks, tr') =>
+        (do _ <- verify_all_item_rules glob_match (insp_items l) (combine_links reduced ilinks);
+         get_summary_link l reduced name, tr')
+    end.
+
   (** in_toto_verify for one layout; [recs] = verification of each sub-directory *)
   Definition verify_body (files : list (str * file)) (recs : list (str * (args -> result)))
              (missing : args -> result) (a : args) : result :=
-    let pre :=
-      do _ <- verify_metadata_signatures (a_md a) (a_keys a);
-      do p <- get_payload (a_md a);
-      do l0 <- match p with PLayout l => Ok l | PLink _ => Err EAttribute end;
-      do _ <- check_expiry (ly_expires_us l0) now_us;
-      do l <- match a_params a with Some ps => substitute_parameters l0 ps | None => Ok l0 end;
-      do sm <- load_links_for_layout files l;
-      do vm <- verify_link_signature_thresholds l sm;
-      Ok (l, vm) in
-    match pre with
+    match stage_pre files a with
     | Err e => (Err e, [])
     | Ok (l, vm) =>
-        (* verify_sublayouts: steps in order, links in load order; events accumulate *)
-        let subs :=
-          (fix steps_go (vm : list (str * list (str * metadata))) (tr : list ev)
-             : res (list (str * list (str * link))) * list ev :=
-             match vm with
-             | [] => (Ok [], tr)
-             | (sname, kms) :: vm' =>
-                 let '(r, tr1) :=
-                   (fix links_go (kms : list (str * metadata)) (tr : list ev)
-                      : res (list (str * link)) * list ev :=
-                      match kms with
-                      | [] => (Ok [], tr)
-                      | (kid, md) :: kms' =>
-                          match get_payload md with
-                          | Err e => (Err e, tr)
-                          | Ok (PLink lk) =>
-                              let '(r, tr') := links_go kms' tr in
-                              (do rest <- r; Ok ((kid, lk) :: rest), tr')
-                          | Ok (PLayout _) =>
-                              let dirname := sublayout_dirname sname kid in
-                              let keyd := JDict [(kid, match lookup kid (ly_keys l) with Some k => k | None => JNull end)] in
-                              let sub_args := mkArgs md keyd None (JStr sname) in
-                              let '(sr, str) :=
-                                match lookup dirname recs with
-                                | Some f => f sub_args
-                                | None => missing sub_args            (* no such directory: every load is an ignored IOError *)
-                                end in
-                              match sr with
-                              | Err e => (Err e, tr ++ str)
-                              | Ok summary =>
-                                  let '(r, tr') := links_go kms' (tr ++ str) in
-                                  (do rest <- r; Ok ((kid, summary) :: rest), tr')
-                              end
-                          end
-                      end) kms tr in
-                 match r with
-                 | Err e => (Err e, tr1)
-                 | Ok kl =>
-                     let '(r2, tr2) := steps_go vm' tr1 in
-                     (do rest <- r2; Ok ((sname, kl) :: rest), tr2)
-                 end
-             end) vm [] in
-        match subs with
+        match subs_steps recs missing l vm [] with
         | (Err e, tr) => (Err e, tr)
         | (Ok chain, tr) =>
-            let mid :=
-              do _ <- verify_threshold_constraints l chain;
-              do reduced <- reduce_chain_links chain;
-              do _ <- verify_all_item_rules glob_match (step_items l) reduced;
-              Ok reduced in
-            match mid with
+            match stage_mid l chain with
             | Err e => (Err e, tr)
-            | Ok reduced =>
-                match run_all_inspections (ly_inspect l) [] tr with
-                | (Err e, tr') => (Err e, tr')
-                | (Ok ilinks, tr') =>
-                    (do _ <- verify_all_item_rules glob_match (insp_items l) (combine_links reduced ilinks);
-                     get_summary_link l reduced (a_step_name a), tr')
-                end
+            | Ok reduced => stage_final l reduced (a_step_name a) tr
             end
         end
     end.
